@@ -57,6 +57,7 @@ type Program struct {
 	SSA     *ssa.Program
 	SSAPkgs map[string]*ssa.Package
 	Funcs   []*ssa.Function // all HIDI-owned source functions (incl. anonymous, instantiations)
+	pure    map[*ssa.Function]bool
 	cg      *callgraph.Graph
 	chaCg   *callgraph.Graph
 	isCtl   bool
